@@ -704,7 +704,7 @@ def reorder_tasks(tier, role):
 
 # ------------------------------------------------------------------------------------ time-driven windows (C14)
 
-def time_window_harness(w, kind, size, slide, max_len, iters=1):
+def time_window_harness(w, kind, size, slide, max_len, iters=1, kinds='I'):
     """kind: 'session' (size = gap) | 'processing' (size, slide); durations and instants are u64 ticks.
     The clock returns base + arbitrary non-decreasing offsets (each step 0..2*size+1 ticks)."""
     if kind == 'session':
@@ -722,7 +722,7 @@ def time_window_harness(w, kind, size, slide, max_len, iters=1):
         args = [Int('u64', size)] + ([Int('u64', slide)] if kind == 'processing' else [])
         descr = ex.call_function(new, args)
         mgr = ex.call_function(build, [Ref([descr], 0), ListAcc()])
-        script = hlib.gen_script(ex, iters, max_len, 'I', payload=id_payload)
+        script = hlib.gen_script(ex, iters, max_len, kinds, payload=id_payload, wm_contract=False)
         # one clock reading per process() call
         clock, t = [], Int('u64', 1000)
         for i in range(len(script)):
@@ -737,7 +737,8 @@ def time_window_harness(w, kind, size, slide, max_len, iters=1):
             prev = 1000
             for i, e in enumerate(script):
                 t = hlib.concrete_int(ex, clock[i])
-                args += [t - prev, e.fields[0].v if e.variant == 'Item' else (-5 if e.variant == 'FlushAndRestart' else -4)]
+                args += [t - prev, e.fields[0].v if e.variant == 'Item' else
+                         {'FlushAndRestart': -5, 'Terminate': -4, 'FlushBatch': -3, 'Watermark': -2}[e.variant]]
                 prev = t
             runner, prof = ex.env['native']
             ex.env['native_used'] = True
@@ -776,7 +777,8 @@ def time_window_harness(w, kind, size, slide, max_len, iters=1):
                     raise Violation('empty window result', hlib._wit(ex), sx())
                 if items != sorted(items) or len(set(items)) != len(items):
                     raise Violation('window result does not keep arrival order', hlib._wit(ex), sx())
-                if items != list(range(items[0], items[0] + len(items))):
+                pos = [ids.index(x) for x in items if x in ids]
+                if len(pos) == len(items) and pos != list(range(pos[0], pos[0] + len(pos))):
                     raise Violation('window result is not a contiguous run of the arrival sequence', hlib._wit(ex), sx())
                 for x in items:
                     if x not in cnt:
@@ -821,6 +823,15 @@ def time_window_tasks(tier, role):
                        bounds='%s window manager kept across iterations, size/gap=%d slide=%d ticks; 2 iterations x <=%s '
                               'items; the clock returns arbitrary non-decreasing instants (each step 0..%d ticks, symbolic)' %
                               (kind, size, slide, L2, 2 * size + 1), role=role, opts={'covers': ['two_iterations']},
+                       budget=300))
+    for kind, size, slide in cfgs[:2]:
+        # the managers are also called with Watermark / FlushBatch elements (broadcast to every key's manager): such a
+        # call may close an expired window, it must not leave anything behind that later yields an empty result
+        ts.append(Task('%s_z%d_s%d_ctl' % (kind, size, slide), 'time_window_harness',
+                       {'kind': kind, 'size': size, 'slide': slide, 'max_len': 3 if tier == 'quick' else 4, 'kinds': 'IWB'},
+                       bounds='%s window manager, size/gap=%d slide=%d ticks; 1 iteration x <=%d calls each Item, Watermark or '
+                              'FlushBatch; clock arbitrary non-decreasing (each step 0..%d ticks, symbolic)' %
+                              (kind, size, slide, 3 if tier == 'quick' else 4, 2 * size + 1), role=role, opts={'covers': []},
                        budget=300))
     for kind, size, slide in cfgs:
         ts.append(Task('%s_z%d_s%d' % (kind, size, slide), 'time_window_harness',
